@@ -15,7 +15,9 @@ CHECK = dict(
     note="Assumes the wake-up guarantee of C03 (a polling loop with a queued task is enabled), weak fairness, terminating "
          "callbacks, documented behaviour of context/errgroup; kernel failures during start and the ErrAcceptSocket exit are "
          "modelled only as an abstract fatal event; Client.Stop twice is outside the model. Fixed on the way: a Shutdown "
-         "returned by OnClose was dropped when the close came from a failed write (7f2f7b0).",
+         "returned by OnClose was dropped when the close came from a failed write (7f2f7b0). Because of the first assumption the "
+         "check also runs C03's wake-up correspondence, and one loop's share of shutdown (the closing sweep with handlers "
+         "that write and close inside OnClose) through the loop-family driver with its lifecycle/shutdown oracles.",
     technique="Coq proof (inductive invariants, variant function, history variable) on an executable transition system + "
               "differential scenario traces on the real engine + direct oracle",
 )
